@@ -1,7 +1,7 @@
 //! binfile: the whole-file correspondence of rbx_binary (kind `binfile`) and the implementation-side
 //! oracles of C01 (round trip), C07 (determinism / re-save fixed point) and C08 (class columns).
 //!
-//!   binfile-gen --seed S --cases N --out FILE [--unknown-only] [--same-class] [--max-nodes K] [--prefix P]
+//!   binfile-gen --seed S --cases N --out FILE [--unknown-only] [--same-class] [--migrating] [--max-nodes K] [--prefix P]
 //!   binfile-run CASES OBS ORACLE STATS      (also writes CASES.hints for the model runner)
 //!
 //! Observation block of a case (the model runner prints the same lines):
@@ -410,9 +410,14 @@ pub fn run_case(id: &str, lines: &[String], facts: &DbFacts) -> CaseRun {
         }
         results.push((c, e));
     }
+    if !crate::binoracle::one_spelling(&f) {
+        // not a failure: tells the C07 handler that this DOM spells one logical property twice on one instance
+        oracle.push(format!("{id} INFO two-spellings"));
+    }
     crate::binoracle::c01_encode(id, &f, &results, &mut oracle);
     crate::binoracle::c07(id, &f, &results, &mut oracle);
     crate::binoracle::c08(id, &f, &mut oracle);
+    crate::binoracle::c15(id, &f, &results, &mut oracle);
     CaseRun { obs, hints, oracle }
 }
 
@@ -455,7 +460,7 @@ pub fn cli(args: &[String]) -> bool {
                     c.same_class = true;
                     c.max_nodes = 4;
                 }
-                let f = forest::gen_forest(&mut r, &mut cat, &c);
+                let f = if has_flag(args, "--migrating") { forest::gen_migrating(&mut r, &mut cat, k) } else { forest::gen_forest(&mut r, &mut cat, &c) };
                 write_case(&mut w, &format!("{prefix}{k}"), &forest::case_lines(&f));
             }
             true
